@@ -3,6 +3,8 @@ import CkbVerif.Lemmas.OrphanExpire
 import CkbVerif.Lemmas.Skip
 import CkbVerif.Lemmas.Inflight
 import CkbVerif.Lemmas.HeaderMap
+import CkbVerif.Lemmas.Orphan3
+import CkbVerif.Lemmas.InflightPolicy
 
 /-!
 # C17 — sync bookkeeping structures behave like their simple mathematical models
@@ -87,6 +89,143 @@ example : ((removeByParent exPool 0).2.map (·.id)) = [1, 2, 4, 3] ∧
 example : ((cleanExpired exPool 7).2.map (·.id)) = [1, 2, 4, 3, 8] ∧ (cleanExpired exPool 6).2 = [] := by decide
 example : OReach (fun i => match i with | 3 => 2 | 8 => 7 | 1 => 0 | 4 => 1 | 2 => 1 | _ => i + 100) exPool :=
   .insert _ (.insert _ (.insert _ (.insert _ (.insert _ .empty (by decide)) (by decide)) (by decide)) (by decide)) (by decide)
+
+/-! ### the three maps of the pool, as the code keeps them (`Model/Orphan3.lean`) -/
+
+/-- Three-map pool states reachable by any sequence of `insert` (duplicates included),
+`remove_blocks_by_parent` and `clean_expired_blocks`. -/
+inductive O3Reach (par : Nat → Nat) : Pool3 → Prop
+  | empty : O3Reach par {}
+  | insert {s : Pool3} (b : Blk) : O3Reach par s → b.parent = par b.id → O3Reach par (insert3 s b)
+  | release {s : Pool3} (p : Nat) : O3Reach par s → O3Reach par (removeByParent3 s p).1
+  | expire {s : Pool3} (tipEpoch : Nat) : O3Reach par s → O3Reach par (cleanExpired3 s tipEpoch).1
+
+/-- Refinement: every reachable three-map state is simulated by a reachable state of the
+one-relation model (same operation sequence): `parents` is the relation itself, `blocks[q]` its
+children look-up, `leaders` is shared. -/
+theorem orphan3_refines {par : Nat → Nat} (hpar : ∀ i, par i ≠ i) {s3 : Pool3} (h : O3Reach par s3) :
+    ∃ s, OReach par s ∧ Sim s3 s := by
+  induction h with
+  | empty => exact ⟨{}, .empty, Sim.empty⟩
+  | insert b _ hb ih =>
+    obtain ⟨s, hr, hs⟩ := ih
+    exact ⟨_, .insert b hr hb, hs.insert (orphan_inv hpar hr) hb⟩
+  | release p _ ih =>
+    obtain ⟨s, hr, hs⟩ := ih
+    exact ⟨_, .release p hr, (hs.removeByParent (orphan_inv hpar hr) p).2⟩
+  | expire e _ ih =>
+    obtain ⟨s, hr, hs⟩ := ih
+    exact ⟨_, .expire e hr, (hs.cleanExpired (orphan_inv hpar hr) e).2⟩
+
+/-- … and the two models return the same released blocks, in the same order. -/
+theorem orphan3_answers {par : Nat → Nat} (hpar : ∀ i, par i ≠ i) {s3 : Pool3} {s : Pool}
+    (hr : OReach par s) (hs : Sim s3 s) (x : Nat) :
+    (removeByParent3 s3 x).2 = (removeByParent s x).2 ∧ (cleanExpired3 s3 x).2 = (cleanExpired s x).2 :=
+  ⟨(hs.removeByParent (orphan_inv hpar hr) x).1, (hs.cleanExpired (orphan_inv hpar hr) x).1⟩
+
+theorem mem_parents_entry {pool : List Blk} {h p : Nat} :
+    (h, p) ∈ pool.map entry ↔ ∃ b, b ∈ pool ∧ b.id = h ∧ b.parent = p := by
+  simp only [List.mem_map, entry, Prod.mk.injEq]
+
+/-- The three-map invariant, after any sequence of inserts (in any order, duplicates included),
+releases and expiries: `parents` and `blocks` are maps (unique keys) describing the same relation
+— `parents[h] = p` exactly when block `h` sits in the group `blocks[p]` —, no group is empty, a
+group holds only children of its key, each once, and `leaders` = the parents of pooled blocks
+that are not themselves pooled (read off `parents` alone). -/
+theorem three_map_inv {par : Nat → Nat} (hpar : ∀ i, par i ≠ i) {s3 : Pool3} (h : O3Reach par s3) :
+    (s3.parents.map (·.1)).Nodup ∧ (s3.blocks.map (·.1)).Nodup ∧
+    (∀ h p, (h, p) ∈ s3.parents ↔ ∃ g b, (p, g) ∈ s3.blocks ∧ b ∈ g ∧ b.id = h) ∧
+    (∀ p g, (p, g) ∈ s3.blocks → g ≠ [] ∧ (∀ b, b ∈ g → b.parent = p) ∧ (g.map (·.id)).Nodup) ∧
+    (∀ p, p ∈ s3.leaders ↔ (∃ h, (h, p) ∈ s3.parents) ∧ ¬ ∃ q, (p, q) ∈ s3.parents) ∧
+    s3.leaders.Nodup := by
+  obtain ⟨s, hr, hs⟩ := orphan3_refines hpar h
+  have inv := orphan_inv hpar hr
+  refine ⟨?_, hs.keys, ?_, ?_, ?_, ?_⟩
+  · rw [hs.parents, List.map_map]
+    exact inv.nodup
+  · intro i p
+    rw [hs.parents, mem_parents_entry]
+    constructor
+    · rintro ⟨b, hb, rfl, rfl⟩
+      obtain ⟨g, hg, hbg⟩ := hs.mem_blocks_iff.mp hb
+      exact ⟨g, b, hg, hbg, rfl⟩
+    · rintro ⟨g, b, hg, hbg, rfl⟩
+      rw [hs.group_members hg] at hbg
+      have := mem_children.mp hbg
+      exact ⟨b, this.1, rfl, this.2⟩
+  · intro p g hg
+    refine ⟨hs.nonempty p g (group_of_mem hs.keys hg), ?_, ?_⟩
+    · intro b hb
+      rw [hs.group_members hg] at hb
+      exact (mem_children.mp hb).2
+    · rw [hs.group_members hg]
+      exact List.Nodup.sublist (List.Sublist.map _ List.filter_sublist) inv.nodup
+  · intro p
+    rw [hs.leaders, inv.leaders p, hs.parents]
+    constructor
+    · rintro ⟨⟨b, hb, hbp⟩, hn⟩
+      refine ⟨⟨b.id, mem_parents_entry.mpr ⟨b, hb, rfl, hbp⟩⟩, ?_⟩
+      rintro ⟨q, hq⟩
+      obtain ⟨c, hc, hci, _⟩ := mem_parents_entry.mp hq
+      exact hn ⟨c, hc, hci⟩
+    · rintro ⟨⟨i, hi⟩, hn⟩
+      obtain ⟨b, hb, _, hbp⟩ := mem_parents_entry.mp hi
+      refine ⟨⟨b, hb, hbp⟩, ?_⟩
+      rintro ⟨c, hc, hci⟩
+      exact hn ⟨c.parent, mem_parents_entry.mpr ⟨c, hc, hci, rfl⟩⟩
+  · rw [hs.leaders]; exact inv.leadersNodup
+
+/-- every block stored in some group -/
+def allBlocks (s : Pool3) : List Blk := s.blocks.flatMap (·.2)
+
+theorem mem_allBlocks_iff {s3 : Pool3} {s : Pool} (hs : Sim s3 s) (b : Blk) :
+    b ∈ allBlocks s3 ↔ b ∈ s.pool := by
+  simp only [allBlocks, List.mem_flatMap]
+  constructor
+  · rintro ⟨⟨q, g⟩, hm, hb⟩
+    simp only at hb
+    rw [hs.group_members hm] at hb
+    exact (mem_children.mp hb).1
+  · intro hb
+    obtain ⟨g, hg, hbg⟩ := hs.mem_blocks_iff.mp hb
+    exact ⟨(b.parent, g), hg, hbg⟩
+
+/-- `release_exact` carried over to the three maps: releasing a parent that is not pooled (no
+`parents` entry) returns exactly the descendants stored in `blocks`, each once, and the groups
+keep exactly the rest. -/
+theorem release3_exact {par : Nat → Nat} (hpar : ∀ i, par i ≠ i) {s3 : Pool3} (h : O3Reach par s3)
+    {p : Nat} (hp : ¬ ∃ q, (p, q) ∈ s3.parents) :
+    (∀ b, b ∈ (removeByParent3 s3 p).2 ↔ Desc (allBlocks s3) p b) ∧
+    ((removeByParent3 s3 p).2.map (·.id)).Nodup ∧
+    (∀ b, b ∈ allBlocks (removeByParent3 s3 p).1 ↔ b ∈ allBlocks s3 ∧ ¬ Desc (allBlocks s3) p b) := by
+  obtain ⟨s, hr, hs⟩ := orphan3_refines hpar h
+  have inv := orphan_inv hpar hr
+  obtain ⟨e1, hs'⟩ := hs.removeByParent inv p
+  have hp' : ¬ ∃ b, b ∈ s.pool ∧ b.id = p := by
+    rintro ⟨b, hb, hbi⟩
+    exact hp ⟨b.parent, by rw [hs.parents]; exact mem_parents_entry.mpr ⟨b, hb, hbi, rfl⟩⟩
+  obtain ⟨a1, a2, a3, _⟩ := release_exact hpar hr hp'
+  have hd : ∀ b, Desc (allBlocks s3) p b ↔ Desc s.pool p b := fun b =>
+    ⟨fun d => d.mono (fun c hc => (mem_allBlocks_iff hs c).mp hc),
+     fun d => d.mono (fun c hc => (mem_allBlocks_iff hs c).mpr hc)⟩
+  refine ⟨?_, ?_, ?_⟩
+  · intro b; rw [e1, a1 b, hd b]
+  · rw [e1]; exact a2
+  · intro b; rw [mem_allBlocks_iff hs' b, a3 b, mem_allBlocks_iff hs b, hd b]
+
+/-- non-vacuity: the pool of `exPool`, three maps; the sibling group of 1 holds 4 and 2, block 1
+arrived after its children and is no leader; a duplicate insert changes nothing -/
+def exPool3 : Pool3 :=
+  [⟨3, 2, 0⟩, ⟨8, 7, 0⟩, ⟨1, 0, 0⟩, ⟨4, 1, 0⟩, ⟨2, 1, 0⟩, ⟨4, 1, 0⟩].foldl insert3 {}
+
+example : exPool3.leaders = [0, 7] ∧ exPool3.parents = [(4, 1), (2, 1), (1, 0), (8, 7), (3, 2)] ∧
+    exPool3.blocks.map (fun e => (e.1, e.2.map (·.id))) = [(1, [4, 2]), (0, [1]), (7, [8]), (2, [3])] := by
+  decide
+example : ((removeByParent3 exPool3 0).2.map (·.id)) = [1, 4, 2, 3] ∧
+    (removeByParent3 exPool3 0).1.parents = [(8, 7)] ∧ (removeByParent3 exPool3 0).1.leaders = [7] := by decide
+example : O3Reach (fun i => match i with | 3 => 2 | 8 => 7 | 1 => 0 | 4 => 1 | 2 => 1 | _ => i + 100) exPool3 :=
+  .insert _ (.insert _ (.insert _ (.insert _ (.insert _ (.insert _ .empty (by decide)) (by decide)) (by decide))
+    (by decide)) (by decide)) (by decide)
 
 end Orphan
 
@@ -190,6 +329,8 @@ inductive IReach : Inflight → Prop
   | removeByBlock {s : Inflight} (now : Nat) (b : Blk) : IReach s → IReach (removeByBlock s now b).1
   | prune {s : Inflight} (now tip : Nat) : IReach s → IReach (prune s now tip).1
   | markSlow {s : Inflight} (now tip : Nat) : IReach s → IReach (markSlow s now tip)
+  | setPolicy {s : Inflight} (adjustment : Bool) (protectNum : Nat) :
+      IReach s → IReach (setPolicy s adjustment protectNum)
 
 theorem inflight_inv {s : Inflight} (h : IReach s) : Inflight.Inv s := by
   induction h with
@@ -199,6 +340,7 @@ theorem inflight_inv {s : Inflight} (h : IReach s) : Inflight.Inv s := by
   | removeByBlock now b _ ih => exact ih.removeByBlock now b
   | prune now tip _ ih => exact ih.prune now tip
   | markSlow now tip _ ih => exact ih.markSlow now tip
+  | setPolicy a n _ ih => exact ih.setPolicy a n
 
 /-- Every block listed for a peer is recorded as in flight, from exactly that peer (and the
 record is unique). -/
@@ -407,6 +549,214 @@ example : ((removeByBlock exTable 4000 ⟨7, 70⟩).1.scheds.map (fun e => (e.1,
 example : ((prune exTable 31500 0).1.states.map (·.1.hash)) = [70] ∧
     ((prune exTable 31500 0).1.scheds.map (fun e => (e.1, e.2.hashes.map (·.hash)))) = [(1, [70]), (2, [])] := by decide
 example : IReach exTable := .insert _ _ _ (.insert _ _ _ (.insert _ _ _ (.insert _ _ _ .empty)))
+
+/-! ### the internal fields: slow marks, counters, analyzer window, policy, restart number -/
+
+/-- Counters and window stay in range and `trace_number` is a map, after any sequence of the
+public mutators (policy changes included), at any clock readings: `task_count ≤
+MAX_BLOCKS_IN_TRANSIT_PER_PEER`, `timeout_count ≤ 2`, the analyzer keeps `TIME_TRACE_SIZE` samples
+with its write index inside the window. -/
+theorem inflight_inv2 {s : Inflight} (h : IReach s) : Inflight.Inv2 s := by
+  induction h with
+  | empty => exact Inflight.Inv2.empty
+  | insert now peer b _ ih => exact ih.insert now peer b
+  | removeByPeer peer _ ih => exact ih.removeByPeer peer
+  | removeByBlock now b _ ih => exact ih.removeByBlock now b
+  | prune now tip _ ih => exact ih.prune now tip
+  | @markSlow s now tip hr ih => exact ih.markSlow (inflight_inv hr).statesNodup now tip
+  | setPolicy a n _ ih => exact ih.setPolicy a n
+
+theorem counters_in_range {s : Inflight} (h : IReach s) {p : Nat} {sc : Sched} (hp : (p, sc) ∈ s.scheds) :
+    sc.taskCount ≤ CkbVerif.Gen.Sync.MAX_BLOCKS_IN_TRANSIT_PER_PEER ∧ sc.timeoutCount ≤ 2 :=
+  ⟨(inflight_inv2 h).taskLe p sc hp, (inflight_inv2 h).timeoutLe p sc hp⟩
+
+/-- A slow mark without a request is never created by `insert`, `remove_by_peer`, `prune`,
+`mark_slow_block` or a policy change; `remove_by_block b` creates one only for `b` itself and only
+when the peer `b` was requested from has no scheduler any more (it was evicted by `prune`): the
+code drops the mark inside `if let Some(set) = download_schedulers.get_mut(&state.peer)`. So
+`trace_number ⊆ inflight_states ∪ {blocks that arrived from an evicted peer}`. -/
+theorem stale_mark_origin {s : Inflight} (h : IReach s) (x : Blk) :
+    (∀ now peer b, Stale (insert s now peer b).1 x → Stale s x) ∧
+    (∀ peer, Stale (removeByPeer s peer).1 x → Stale s x) ∧
+    (∀ now b, Stale (removeByBlock s now b).1 x → Stale s x ∨ (x = b ∧ Untracked s b)) ∧
+    (∀ now tip, Stale (prune s now tip).1 x → Stale s x) ∧
+    (∀ now tip, Stale (markSlow s now tip) x → Stale s x) ∧
+    (∀ a n, Stale (setPolicy s a n) x → Stale s x) :=
+  ⟨fun now peer b => stale_insert now peer b, fun peer => stale_removeByPeer peer,
+   fun now b => stale_removeByBlock now b,
+   fun now tip => stale_prune (inflight_inv2 h).traceNodup now tip,
+   fun now tip => stale_markSlow now tip, fun _ _ hst => hst⟩
+
+/-- In particular: while every in-flight block's peer is tracked, every mark belongs to a request
+(`trace_number ⊆ inflight_states` is kept by every operation). Partial: the statement is per step;
+the exception (arrival from an evicted peer) is exactly `stale_mark_origin`. -/
+theorem trace_sub_states_partial {s : Inflight} (h : IReach s)
+    (tracked : ∀ b st, (b, st) ∈ s.states → ∃ sc, (st.peer, sc) ∈ s.scheds)
+    (sub : ∀ x, ¬ Stale s x) (x : Blk) :
+    (∀ now peer b, ¬ Stale (insert s now peer b).1 x) ∧ (∀ peer, ¬ Stale (removeByPeer s peer).1 x) ∧
+    (∀ now b, ¬ Stale (removeByBlock s now b).1 x) ∧ (∀ now tip, ¬ Stale (prune s now tip).1 x) ∧
+    (∀ now tip, ¬ Stale (markSlow s now tip) x) := by
+  obtain ⟨a1, a2, a3, a4, a5, _⟩ := stale_mark_origin h x
+  refine ⟨fun now peer b hs => sub x (a1 now peer b hs), fun peer hs => sub x (a2 peer hs), ?_,
+    fun now tip hs => sub x (a4 now tip hs), fun now tip hs => sub x (a5 now tip hs)⟩
+  intro now b hs
+  rcases a3 now b hs with h1 | ⟨_, st, hst, hno⟩
+  · exact sub x h1
+  · obtain ⟨sc, hsc⟩ := tracked b st hst
+    exact hno sc hsc
+
+/-- When a tracked peer leaves, nothing of its requests stays anywhere: the marks of exactly its
+listed blocks go, none of its blocks is in flight, marked, or listed for anybody afterwards, and
+restart number, analyzer and policy are untouched. -/
+theorem remove_by_peer_leaves_nothing {s : Inflight} (h : IReach s) {peer : Nat} {sc : Sched}
+    (hp : (peer, sc) ∈ s.scheds) :
+    (∀ t, t ∈ (removeByPeer s peer).1.trace ↔ t ∈ s.trace ∧ t.1 ∉ sc.hashes) ∧
+    (∀ b, b ∈ sc.hashes → ¬ Marked (removeByPeer s peer).1 b ∧ ¬ InFlight (removeByPeer s peer).1 b ∧
+      ∀ q sc', (q, sc') ∈ (removeByPeer s peer).1.scheds → b ∉ sc'.hashes) ∧
+    (removeByPeer s peer).1.restartNumber = s.restartNumber ∧
+    (removeByPeer s peer).1.analyzer = s.analyzer ∧
+    (removeByPeer s peer).1.adjustment = s.adjustment ∧
+    (removeByPeer s peer).1.protectNum = s.protectNum := by
+  have inv := inflight_inv h
+  have hf : s.scheds.find? (fun e => e.1 == peer) = some (peer, sc) := by
+    cases hfind : s.scheds.find? (fun e => e.1 == peer) with
+    | none =>
+      have := find_none hfind _ hp
+      simp at this
+    | some e =>
+      obtain ⟨q, sc0⟩ := e
+      obtain ⟨hmem, hq⟩ := find_mem hfind
+      have hq' : q = peer := by simpa using hq
+      subst hq'
+      rw [assoc_unique inv.schedsNodup hmem hp]
+  have ht : ∀ t, t ∈ (removeByPeer s peer).1.trace ↔ t ∈ s.trace ∧ t.1 ∉ sc.hashes := by
+    intro t
+    unfold removeByPeer
+    simp only [hf]
+    simp [List.mem_filter]
+  have hst : ∀ e, e ∈ (removeByPeer s peer).1.states ↔ e ∈ s.states ∧ e.1 ∉ sc.hashes :=
+    (remove_by_peer_exact h hp).2.1
+  have hsc : ∀ e, e ∈ (removeByPeer s peer).1.scheds ↔ e ∈ s.scheds ∧ e.1 ≠ peer :=
+    (remove_by_peer_exact h hp).2.2.1
+  refine ⟨ht, ?_, ?_⟩
+  · intro b hb
+    refine ⟨?_, ?_, ?_⟩
+    · rintro ⟨ts, hm⟩
+      exact ((ht (b, ts)).mp hm).2 hb
+    · rintro ⟨st, hm⟩
+      exact ((hst (b, st)).mp hm).2 hb
+    · intro q sc' hm hb'
+      obtain ⟨hm0, hq⟩ := (hsc (q, sc')).mp hm
+      exact hq (assign_unique h hm0 hp hb' hb)
+  · unfold removeByPeer
+    simp only [hf]
+    exact ⟨trivial, trivial, trivial, trivial⟩
+
+/-- `prune`, policy side. Who is disconnected: every tracked peer is either disconnected or kept,
+never both. Counters: without punishment (`download_schedulers.len() ≤ protect_num`, or
+`adjustment` off) no counter moves; with it, the window is quartered per timed-out request and
+halved per expired slow mark of that peer (`punish(2)`, `punish(1)`), `timeout_count` untouched. -/
+theorem prune_policy {s : Inflight} (h : IReach s) (now tip : Nat) :
+    (∀ p, p ∈ (prune s now tip).2 → ∀ sc, (p, sc) ∉ (prune s now tip).1.scheds) ∧
+    (∀ p sc, (p, sc) ∈ s.scheds → p ∈ (prune s now tip).2 ∨ ∃ sc', (p, sc') ∈ (prune s now tip).1.scheds) ∧
+    ((decide (s.scheds.length > s.protectNum) && s.adjustment) = false →
+      ∀ p sc', (p, sc') ∈ (prune s now tip).1.scheds →
+        ∃ sc, (p, sc) ∈ s.scheds ∧ sc'.taskCount = sc.taskCount ∧ sc'.timeoutCount = sc.timeoutCount) ∧
+    ((decide (s.scheds.length > s.protectNum) && s.adjustment) = true →
+      ∀ p sc', (p, sc') ∈ (prune s now tip).1.scheds →
+        ∃ sc k1 k2, (p, sc) ∈ s.scheds ∧ sc'.timeoutCount = sc.timeoutCount ∧
+          sc'.taskCount = sc.taskCount >>> (2 * k1 + k2) ∧
+          k1 = ((s.states.filter (timedOut now tip)).filter (fun g => g.2.peer == p)).length) :=
+  ⟨fun _ hp => prune_disconnect_disjoint (inflight_inv h).schedsNodup now tip hp,
+   fun _ _ hm => prune_disconnect_or_kept now tip hm,
+   fun hno _ _ hm => prune_counters_unpunished now tip hno hm,
+   fun hyes _ _ hm => prune_counters_punished now tip hyes hm⟩
+
+/-- `prune`, marks and restart number: a mark survives exactly when its request did not time out
+in the first loop and the mark itself is not older than `low_time`; `restart_number` (cleared
+first once the tip passed it) rises to the highest block whose mark expired, and to nothing else. -/
+theorem prune_marks_exact (s : Inflight) (now tip : Nat) :
+    (∀ t, t ∈ (prune s now tip).1.trace ↔
+      t ∈ s.trace ∧ (¬ ∃ e, e ∈ s.states ∧ timedOut now tip e = true ∧ e.1 = t.1) ∧
+        ¬ now > s.analyzer.low + t.2) ∧
+    (let r1 := if s.restartNumber != 0 && decide (tip + 1 > s.restartNumber) then 0 else s.restartNumber
+     r1 ≤ (prune s now tip).1.restartNumber ∧
+     (∀ t, t ∈ s.trace → (¬ ∃ e, e ∈ s.states ∧ timedOut now tip e = true ∧ e.1 = t.1) →
+        now > s.analyzer.low + t.2 → t.1.number ≤ (prune s now tip).1.restartNumber) ∧
+     ((prune s now tip).1.restartNumber = r1 ∨
+        ∃ t, t ∈ s.trace ∧ now > s.analyzer.low + t.2 ∧ (prune s now tip).1.restartNumber = t.1.number)) := by
+  refine ⟨prune_trace s now tip, ?_⟩
+  simp only [prune]
+  obtain ⟨a1, a2, a3⟩ := foldl_max_ge
+    ((s.trace.filter (fun t => !(s.states.filter (timedOut now tip)).any (fun e => e.1 == t.1))).filter
+      (fun t => decide (now > s.analyzer.low + t.2)))
+    (if s.restartNumber != 0 && decide (tip + 1 > s.restartNumber) then 0 else s.restartNumber)
+  refine ⟨a1, ?_, ?_⟩
+  · intro t ht hnot hexp
+    apply a2 t
+    simp only [List.mem_filter, Bool.not_eq_true', List.any_eq_false, beq_iff_eq, decide_eq_true_eq,
+      and_imp]
+    exact ⟨⟨ht, fun e he hto hk => hnot ⟨e, he, hto, hk⟩⟩, hexp⟩
+  · rcases a3 with e | ⟨t, ht, e⟩
+    · exact Or.inl e
+    · right
+      simp only [List.mem_filter, decide_eq_true_eq] at ht
+      exact ⟨t, ht.1.1, ht.2, e⟩
+
+/-- non-vacuity: five peers over `protect_num = 4` with adjustment on: a time-out quarters the
+window (32 → 8) and a second, third one evict the peer; a mark made at the check point outlives
+`low_time` and releases its request, raising `restart_number`; a departed peer's mark goes with it -/
+def exPolicy : Inflight :=
+  let s := (insert {} 1000 1 ⟨5, 50⟩).1
+  let s := (insert s 1000 2 ⟨6, 60⟩).1
+  let s := (insert s 1000 3 ⟨7, 70⟩).1
+  let s := (insert s 1000 4 ⟨8, 80⟩).1
+  (insert s 1000 5 ⟨9, 90⟩).1
+
+example : ((prune exPolicy 31001 4).1.scheds.map (fun e => (e.1, e.2.taskCount))) =
+    [(1, 8), (2, 8), (3, 8), (4, 8), (5, 8)] := by decide
+example : ((prune (setPolicy exPolicy true 5) 31001 4).1.scheds.map (fun e => (e.1, e.2.taskCount))) =
+    [(1, 32), (2, 32), (3, 32), (4, 32), (5, 32)] := by decide
+example : (prune (markSlow exPolicy 2000 4) 3501 4).1.restartNumber = 5 ∧
+    ((prune (markSlow exPolicy 2000 4) 3501 4).1.states.map (·.1.hash)) = [90, 80, 70, 60] ∧
+    (prune (markSlow exPolicy 2000 4) 3500 4).1.restartNumber = 0 := by decide
+example : (removeByPeer (markSlow exPolicy 2000 4) 1).1.trace = [] ∧
+    (markSlow exPolicy 2000 4).trace = [(⟨5, 50⟩, 2000)] := by decide
+example : IReach (setPolicy exPolicy true 5) :=
+  .setPolicy _ _ (.insert _ _ _ (.insert _ _ _ (.insert _ _ _ (.insert _ _ _ (.insert _ _ _ .empty)))))
+
+/-- The analyzer's three thresholds stay ordered, `fast_time ≤ normal_time ≤ low_time`, after any
+sequence of operations: the update averages them (saturating) with the samples at the 1/3, 4/5 and
+9/10 positions of the sorted window. So the four response-time classes of `push_time` are nested
+intervals and the slow-mark limit `low_time` is the largest of the three. -/
+theorem thresholds_ordered {s : Inflight} (h : IReach s) :
+    s.analyzer.fast ≤ s.analyzer.normal ∧ s.analyzer.normal ≤ s.analyzer.low := by
+  induction h with
+  | empty => decide
+  | insert now peer b _ ih => rw [(insert_frame _ now peer b).2.1]; exact ih
+  | removeByPeer peer _ ih => rw [removeByPeer_analyzer]; exact ih
+  | @removeByBlock s now b hr ih =>
+    rcases removeByBlock_analyzer s now b with e | ⟨t, e⟩
+    · rw [e]; exact ih
+    · rw [e]; exact pushTime_ordered _ t (inflight_inv2 hr).windowLen ih
+  | prune now tip _ ih => exact ih
+  | markSlow now tip _ ih => exact ih
+  | setPolicy a n _ ih => exact ih
+
+/-- non-vacuity: a reachable table whose analyzer has taken a sample; and an analyzer with a full
+window satisfies the hypotheses of the update step in its sort-and-average branch (`mergeSort`
+does not reduce in the kernel, so the averaged values themselves are compared by the
+correspondence: the long in-flight runs fill the 512-sample window on the real code) -/
+example : (removeByBlock exTable 4000 ⟨7, 70⟩).1.analyzer.index = 1 ∧
+    (removeByBlock exTable 4000 ⟨7, 70⟩).1.analyzer.low = 1500 := by decide
+example :
+    (({ index := TIME_TRACE_SIZE, trace := List.replicate TIME_TRACE_SIZE 3000 } : Analyzer).trace.length = TIME_TRACE_SIZE) ∧
+    (({ index := TIME_TRACE_SIZE, trace := List.replicate TIME_TRACE_SIZE 3000 } : Analyzer).fast ≤
+      ({ index := TIME_TRACE_SIZE, trace := List.replicate TIME_TRACE_SIZE 3000 } : Analyzer).normal) ∧
+    (({ index := TIME_TRACE_SIZE, trace := List.replicate TIME_TRACE_SIZE 3000 } : Analyzer).normal ≤
+      ({ index := TIME_TRACE_SIZE, trace := List.replicate TIME_TRACE_SIZE 3000 } : Analyzer).low) ∧
+    ¬ ({ index := TIME_TRACE_SIZE, trace := List.replicate TIME_TRACE_SIZE 3000 } : Analyzer).index < TIME_TRACE_SIZE :=
+  ⟨List.length_replicate, by decide, by decide, Nat.lt_irrefl _⟩
 
 end Inflight
 
